@@ -76,15 +76,16 @@ def _replay(family, tier, obid, model, outdir, tries=6, seed=0, names=()):
     for attempt in range(tries):
         m = dict(model)
         m["__random_seed__"] = seed * 1000 + attempt + 1
-        for nm in names:
-            if nm.startswith("delta") and m.get(nm, 0) % P == 0:
+        deltas = [nm for nm in names if nm.startswith("delta")]
+        if deltas and all(m.get(nm, 0) % P == 0 for nm in deltas):
+            # no perturbation in the model at all (undecided query): use a unit perturbation
+            for nm in deltas:
                 m[nm] = 1 + (attempt % 3)
         if attempt > 0:
             for k in list(m.keys()):
                 if not k.startswith("delta") and not k.startswith("__"):
                     m[k] = rnd.randrange(P)
-            if "delta" in m and m["delta"] % P == 0:
-                m["delta"] = 1
+            pass
         mp = os.path.join(outdir, obid.replace("/", "_") + ".model%d.json" % attempt)
         with open(mp, "w") as f:
             json.dump(m, f)
@@ -215,6 +216,16 @@ def run(family, tier, seed, prop, only=None, id_regex=None):
             if ans in ("sat", "sat?"):
                 model_raw = common.parse_model(raw)
                 model = {m["vars"][k]: v % P for k, v in model_raw.items() if k in m["vars"]}
+                if m.get("candidate"):
+                    # candidate from the encoder's algebraic model search (polynomial equations mod p
+                    # are beyond the SMT solvers' model construction): replayed natively first
+                    cand = json.load(open(os.path.join(outdir, m["candidate"])))
+                    ok, mm, out = _replay(family, tier, m["id"], cand, outdir, tries=1, seed=seed, names=[])
+                    if ok:
+                        rp = _write_replay(prop, family, tier, m["id"], mm)
+                        return common.ob(m["id"], verdict="violated", seconds=dt, solver=solver + " + algebraic model search", queries=queries,
+                                         detail="counterexample reproduced natively: " + out[:300], replay=rp,
+                                         finding_key=m["finding_key"], **base)
                 ok, mm, out = _replay(family, tier, m["id"], model, outdir, seed=seed, names=list(m["vars"].values()))
                 if ok:
                     rp = _write_replay(prop, family, tier, m["id"], mm)
